@@ -4,7 +4,8 @@
 // read-back after every step) plus
 //
 //	Backup(since)   Shard.Backup(w, path, since) -> tar stream.  File mtimes are under the driver's control: after every
-//	                step the *.tsm / *.tombstone files that appeared or changed get os.Chtimes(epoch2001 + clock hours),
+//	                step the *.tsm / *.tombstone files that appeared or changed get os.Chtimes(epoch2001 + clock units; a unit
+//	                is 1 h, 100 ms or 1 ms by concretisation, so that mtimes before and after `since` may share a second),
 //	                clock being the driver's count of steps that changed the file set (compared with the spec's clock:
 //	                DRIFT if different); `since` is epoch2001 + since hours.  The file written by the forced snapshot
 //	                inside Backup carries the wall clock time (later than every logical time).
@@ -50,7 +51,12 @@ const shardRel = "db0/rp0/1"
 
 var epoch2001 = time.Date(2001, 1, 1, 0, 0, 0, 0, time.UTC)
 
-func logicalTime(c int64) time.Time { return epoch2001.Add(time.Duration(c) * time.Hour) }
+// clockUnit is the wall-clock length of one tick of the spec's logical clock. It is a concretisation (seed, conc): hours,
+// or 100 ms / 1 ms on top of a whole-second base, so that `since` and the mtimes of later changes share a wall-clock second
+// (a comparison of mtimes at a coarser granularity than the file system's loses such files).
+var clockUnit = time.Hour
+
+func logicalTime(c int64) time.Time { return epoch2001.Add(time.Duration(c) * clockUnit) }
 
 type fileStamp struct {
 	size  int64
@@ -493,6 +499,8 @@ func runBackupCase(c *caseT, raw json.RawMessage, env *rt.Env) rt.Result {
 	r := &runner{c: c, cc: concretise(env.Seed, c), env: &shardEnv{root: root}, drift: map[string]bool{}, sig: map[string]bool{},
 		written: map[[2]int64][]int64{}}
 	r.cc.anchor = false // the spec's files are exactly the shard's files (names by generation-sequence)
+	clockUnit = []time.Duration{time.Hour, 100 * time.Millisecond, time.Millisecond}[mix(r.cc.h, 0xc10c)%3]
+	r.sig[fmt.Sprintf("clock-unit-%s", clockUnit)] = true
 	b := &backuper{r: r, env: env, known: map[string]fileStamp{}}
 	if err := r.env.open(); err != nil {
 		return rt.Infra("open: " + err.Error())
